@@ -7,9 +7,12 @@ Core Lean only.
 exactly these).  The same sets are measured on live objects of every alignment class and option
 combination on every run (`harness/c08.py: rw_table`, attribute read tracing + before/after digests) and
 written to `Generated/C08RW.lean`; `GenProps/C08.lean` states, by `decide`, that the measured sets are the
-model's.  So "menpo's re-fit is a function of (options, source, target) only" is a checked tie, not an
-assumption: an attribute that survives from construction or from an earlier target and is read by the
-re-fit shows up as a read outside `readsOf`.
+model's.  What is measured: the *instance attributes of the alignment object* on ONE traced execution per
+class and option combination (fixed data, three `set_target` calls).  An attribute that survives from
+construction or from an earlier target and is read by the re-fit on that path shows up as a read outside
+`readsOf`; a data-dependent read on another path, or state kept outside the instance dictionary (class
+attribute, module global, state inside the held kernel / source mesh), is not seen by this table — such
+state is the business of the fresh-construction oracle.
 -/
 import MenpoModel.Core.C08Retarget
 
@@ -99,14 +102,18 @@ def fldsOf (l : List String) : List (Option Fld) := (l.map pyFld).eraseDups
 def sameSet (a : List (Option Fld)) (b : List Fld) : Bool :=
   a.all (fun x => match x with | some f => b.contains f | none => false) && b.all (fun f => a.contains (some f))
 
-/-- the measured row is what the model says: every attribute is known; reads, writes and in-place writes
-are exactly the model's; whatever is read and also written is the target (whose old value is only
-verified against) or the partially overwritten matrix of an in-place class; nothing marked
-construction-time-only is read or written -/
+/-- right-hand-side scratch (`v`, `y` of TPS) may be kept in attributes or in locals: not compared -/
+def noScratch (l : List Fld) : List Fld := l.filter fun f => f != .tpsScratch
+def noScratchO (l : List (Option Fld)) : List (Option Fld) := l.filter fun f => f != some .tpsScratch
+
+/-- the measured row is what the model says: every attribute that is read or written is known (an attribute
+the re-fit never touches may be anything); reads, writes (scratch apart) and in-place writes are exactly the
+model's; whatever is read and also written is the target (whose old value is only verified against) or the
+partially overwritten matrix of an in-place class; nothing marked construction-time-only is read or written -/
 def RWRow.ok (r : RWRow) : Bool :=
-  r.attrs.all (fun a => (pyFld a).isSome) &&
+  (r.reads ++ r.writes).all (fun a => (pyFld a).isSome) &&
   sameSet (fldsOf r.reads) (readsOf r.cls) &&
-  sameSet (fldsOf r.writes) (writesOf r.cls) &&
+  sameSet (noScratchO (fldsOf r.writes)) (noScratch (writesOf r.cls)) &&
   sameSet (fldsOf r.inPlace) (inPlaceOf r.cls) &&
   r.reads.all (fun a => pyFld a != some .ctorOnly) && r.writes.all (fun a => pyFld a != some .ctorOnly) &&
   (r.reads.filter fun a => r.writes.contains a).all (fun a =>
@@ -117,6 +124,36 @@ and written, besides the target, is the partially overwritten matrix of an in-pl
 theorem readsOf_writesOf_overlap : ∀ c : Cls,
     ((readsOf c).filter fun f => (writesOf c).contains f) = .target :: inPlaceOf c := by
   intro c; cases c <;> rfl
+
+/-! ### what `copy()` shares (measured on live objects of every class on every run)
+
+`hCopy` (Core/C08Heap.lean) transcribes the copy discipline: a homogeneous alignment's copy gets a NEW matrix cell and
+keeps the references to the source and target `PointCloud`s; a TPS / PWA copy owns new source and target objects.  The
+same three facts are measured with Python's `is` on `c = o.copy()` of live objects. -/
+
+structure CopyRow where
+  impl : String
+  cls : Cls
+  /-- `c._h_matrix is not o._h_matrix` (homogeneous classes; `true` where there is no matrix) -/
+  ownMatrix : Bool
+  /-- `c._source is o._source`, `c._target is o._target` -/
+  sharesSource : Bool
+  sharesTarget : Bool
+
+def isHomCls : Cls → Bool
+  | .tps => false
+  | .pwa => false
+  | _ => true
+
+/-- what the independence of copies needs of the measured row: the copy owns its matrix (the in-place re-fits write
+into it).  Whether the point-set *objects* are shared (`hCopy`: by the homogeneous classes only) is recorded and
+compared by the correspondence, not demanded here: `set_target` re-binds `_target` and never writes a point set, so
+either choice keeps copies independent -/
+def CopyRow.ok (r : CopyRow) : Bool := r.ownMatrix
+
+/-- the rows agree with `hCopy`'s choice (reported, not an obligation) -/
+def CopyRow.asModel (r : CopyRow) : Bool :=
+  (r.sharesSource == isHomCls r.cls) && (r.sharesTarget == isHomCls r.cls)
 
 /-! ### which class supplies which method (regenerated from the live MROs)
 
